@@ -75,6 +75,10 @@ func filterKind(a an.PathAtom) string {
 		isBits := func(z *an.Expr) bool {
 			return z.Op == an.OpCall && z.Fn != nil && z.Fn.String() == "(net/netip.Prefix).Bits"
 		}
+		// p.Bits() == 128 is the definition of p.IsSingleIP() (polarity: see kindPol)
+		if k, isC := y.ConstInt(); isC && k == 128 && isBits(x) && (e.Tok == token.EQL || e.Tok == token.NEQ) {
+			return "IsSingleIP"
+		}
 		if isBits(x) && isBits(y) {
 			switch e.Tok {
 			case token.NEQ, token.EQL:
@@ -91,6 +95,19 @@ func filterKind(a an.PathAtom) string {
 		}
 	}
 	return "other:" + e.String()
+}
+
+// kindPol is filterKind with the polarity of the named condition ("+" holds, "-" does not).
+func kindPol(a an.PathAtom) (string, string) {
+	k := filterKind(a)
+	pos := a.Pos
+	if k == "IsSingleIP" && a.Cond.Op == an.OpBin && a.Cond.Tok == token.NEQ {
+		pos = !pos
+	}
+	if pos {
+		return k, "+"
+	}
+	return k, "-"
 }
 
 // loopBodyPaths returns the cut paths that represent one iteration of the
@@ -114,17 +131,13 @@ func iterationPaths(c *Ctx, rule string, fn *ssa.Function) (iters []iterPath, re
 		it := iterPath{p: p}
 		started := false
 		for _, a := range p.Atoms {
-			k := filterKind(a)
+			k, pol := kindPol(a)
 			if k == "loop" {
 				started = true
 				continue
 			}
 			if !started {
 				continue
-			}
-			pol := "+"
-			if !a.Pos {
-				pol = "-"
 			}
 			it.kinds = append(it.kinds, pol+k)
 		}
@@ -537,17 +550,13 @@ func runC14(c *Ctx) {
 		var kinds []string
 		started := false
 		for _, a := range p.Atoms {
-			k := filterKind(a)
+			k, pol := kindPol(a)
 			if k == "loop" {
 				started = true
 				continue
 			}
 			if !started {
 				continue
-			}
-			pol := "+"
-			if !a.Pos {
-				pol = "-"
 			}
 			kinds = append(kinds, pol+k)
 		}
@@ -660,7 +669,7 @@ func c14Ranking(c *Ctx) {
 			who = res.Name
 		}
 		// gather facts
-		var sc, sb, cc, cb, less *bool
+		var sc, sb, cc, cb, less, stableDiffer *bool
 		invalidBest := false
 		exhausted := false
 		for _, a := range p.Atoms {
@@ -669,6 +678,16 @@ func c14Ranking(c *Ctx) {
 			if e.Op == an.OpUn && e.Tok == token.NOT {
 				e = e.Args[0]
 				v = !v
+			}
+			// relational form: stable(current) != stable(best) (or ==): the second follows from the first
+			if e.Op == an.OpBin && (e.Tok == token.NEQ || e.Tok == token.EQL) && len(e.Args) == 2 &&
+				exprCallIs(e.Args[0], PkgPlugin, "", "isStable") && exprCallIs(e.Args[1], PkgPlugin, "", "isStable") {
+				a0, a1 := e.Args[0].Args[0], e.Args[1].Args[0]
+				if a0.Op == an.OpParam && a1.Op == an.OpParam && ((a0.Name == "current" && a1.Name == "best") || (a0.Name == "best" && a1.Name == "current")) {
+					d := (e.Tok == token.NEQ) == v
+					stableDiffer = &d
+				}
+				continue
 			}
 			switch {
 			case exprCallIs(e, PkgPlugin, "", "isStable"):
@@ -716,6 +735,16 @@ func c14Ranking(c *Ctx) {
 				}
 			}
 		}
+		if stableDiffer != nil {
+			switch {
+			case sc != nil && sb == nil:
+				vb := *sc != *stableDiffer
+				sb = &vb
+			case sb != nil && sc == nil:
+				vc := *sb != *stableDiffer
+				sc = &vc
+			}
+		}
 		want := ""
 		why := ""
 		switch {
@@ -755,7 +784,7 @@ func c14Ranking(c *Ctx) {
 	}
 	c.R.Check(classOrder == "IsPrivate,IsGlobalUnicast,IsLinkLocalUnicast", "R-C14-3", name+":class-order", name, c.pos(bt.Pos()), "classes tried in order ["+classOrder+"]",
 		"unique-local (IsPrivate), then global unicast, then link-local", "address classes ranked in the wrong order")
-	c.R.Check(bad == 0 && nRet >= 10, "R-C14-3", name+":shape", name, c.pos(bt.Pos()), fmt.Sprintf("%d return path(s), %d reversed tie-break(s)", nRet, bad), "tie-break is current.Less(best)", "tie-break reversed")
+	c.R.Check(bad == 0 && nRet >= 6, "R-C14-3", name+":shape", name, c.pos(bt.Pos()), fmt.Sprintf("%d return path(s), %d reversed tie-break(s)", nRet, bad), "tie-break is current.Less(best)", "tie-break reversed")
 }
 
 func keysOf(m map[string]bool) []string {
@@ -1116,27 +1145,40 @@ func c15Loopback(c *Ctx) {
 	name := c.fname(lr)
 	// an interface is considered iff FlagLoopback and FlagUp are both set
 	okFlags := false
+	nFetch, nBad := 0, 0
 	for _, p := range c.pathsO("R-C15-4", lr, an.PathOpts{EmitCut: true}) {
 		calls := callsOnPath(p, func(cc *ssa.CallCommon) bool { return an.CallIs(cc, PkgSystem, "addresser", "routesByIndex") })
 		if len(calls) == 0 {
 			continue
 		}
-		masks := map[int64]bool{}
+		nFetch++
+		// flag bits known to be set on the path: (Flags&m) != 0 for a single bit m, or (Flags&M) == M
+		var proven int64
 		for _, a := range p.Atoms {
 			x, y, op, ok := effCmp(a)
-			if ok && op == token.NEQ && x.Op == an.OpBin && x.Tok == token.AND {
-				if z, isC := y.ConstInt(); isC && z == 0 {
-					if m, isC := x.Args[1].ConstInt(); isC && x.Args[0].IsField("Flags") {
-						masks[m] = true
-					}
-				}
+			if !ok || x.Op != an.OpBin || x.Tok != token.AND || !x.Args[0].IsField("Flags") {
+				continue
+			}
+			m, isM := x.Args[1].ConstInt()
+			z, isZ := y.ConstInt()
+			if !isM || !isZ {
+				continue
+			}
+			switch {
+			case op == token.NEQ && z == 0 && m&(m-1) == 0:
+				proven |= m
+			case op == token.EQL && z == m:
+				proven |= m
 			}
 		}
 		// net.FlagUp = 1, net.FlagLoopback = 4
-		if masks[1] && masks[4] {
+		if proven&5 == 5 {
 			okFlags = true
+		} else {
+			nBad++
 		}
 	}
+	okFlags = okFlags && nBad == 0 && nFetch > 0
 	c.R.Check(okFlags, "R-C15-4", name+":up-loopback-only", name, c.pos(lr.Pos()), fmt.Sprintf("routes fetched only for interfaces with FlagLoopback ∧ FlagUp: %v", okFlags), "all up loopback interfaces", "routes of non-loopback or down interfaces are advertised")
 	if rb := c.P.Method("internal/system", "addresser", "routesByIndex"); rb != nil {
 		okTable := false
